@@ -42,7 +42,9 @@ func NewPublishHeader(document *gedcom.Document, extraTab string, selectedTab st
 func (c *PublishHeader) WriteHTMLTo(w io.Writer) (int64, error) {
 	items := []*core.NavItem{}
 
-	if c.options.ShowIndividuals {
+	// There are no individual list pages to link to when there is nobody to
+	// list (an empty document, or everybody is living and hidden).
+	if c.options.ShowIndividuals && len(c.indexLetters) > 0 {
 		badge := core.NewCountBadge(len(c.document.Individuals()))
 		title := core.NewComponents(core.NewText("Individuals "), badge)
 		item := core.NewNavItem(
